@@ -11,7 +11,7 @@ pub const HTTP_RESPONSE: &str = "HTTP/1.1 200 OK\nContent-Length: 0\nConnection:
 fn budget(t: Tier) -> u64 {
     match t {
         Tier::Quick => 1_360,
-        Tier::Thorough => 30_000,
+        Tier::Thorough => 95_200,
     }
 }
 
